@@ -21,7 +21,10 @@ pub fn shadowvm_path() -> std::path::PathBuf {
 /// The worker binary for a case: the pseudo option `__build:base` selects the build without `vo_bit`.
 pub fn worker_for(case: &Case) -> std::path::PathBuf {
     if case.opts.iter().any(|(k, v)| k == "__build" && v == "base") {
-        std::path::PathBuf::from(format!("{}/harness/target-base/release/shadowvm", crate::runner::VERIF_DIR))
+        // sibling build directory of the one this driver runs from: <harness>/target-base/release/shadowvm
+        let exe = std::env::current_exe().unwrap();
+        let harness = exe.parent().and_then(|p| p.parent()).and_then(|p| p.parent()).map(|p| p.to_path_buf()).unwrap_or_else(|| std::path::PathBuf::from(format!("{}/harness", crate::runner::VERIF_DIR)));
+        harness.join("target-base/release/shadowvm")
     } else {
         shadowvm_path()
     }
